@@ -104,3 +104,12 @@ func VerifNewReader(byMode map[NavigationExclusionMode][]VerifElement, title str
 	}
 	return r
 }
+
+// ---- C19: the depth limit of OpenReader ----
+
+// VerifMaxTreeDepth is maxTreeDepth, the deepest nesting OpenReader accepts.
+const VerifMaxTreeDepth = maxTreeDepth
+
+// VerifTreeDeeperThan is treeDeeperThan: the iterative depth check of OpenReader with
+// any limit.
+func VerifTreeDeeperThan(root *html.Node, limit int) bool { return treeDeeperThan(root, limit) }
